@@ -277,6 +277,58 @@ Definition check_conc (c : conc_case) : N :=
     if N.eqb (m_height (t_mem s)) (N.of_nat (length chain)) && N.eqb (Vverify s) ver && dump_eqb (dump K (s_data (t_store s))) d
     then V_OK else V_MISMATCH.
 
+(* ------------------------------------------------------------ commits with embeddings (conflict detection, auto-merge) *)
+(* Implementation-only oracle: with auto-merge a block may hold the operations of SEVERAL workspaces (the
+   committing one followed by the orthogonal ones it absorbed).  "Each committed workspace exactly once":
+   every block is a concatenation of op lists of workspaces whose state is Committed, each used once overall,
+   no other workspace's operations appear, the chain verifies, the data is the replay of the blocks. *)
+Definition memN (x : N) (l : list N) : bool := existsb (N.eqb x) l.
+Fixpoint strip_prefix (l pre : list tx) : option (list tx) :=
+  match pre, l with
+  | [], _ => Some l
+  | a :: pr, x :: xs => if tx_eqb a x then strip_prefix xs pr else None
+  | _ :: _, [] => None
+  end.
+Fixpoint parse_block (fuel : nat) (cands : list (N * list tx)) (used : list N) (blk : list tx) : option (list N) :=
+  match fuel with
+  | O => None
+  | S f =>
+      match blk with
+      | [] => Some used
+      | _ =>
+          match find (fun c => negb (memN (fst c) used) && negb (is_nil (snd c))
+                               && match strip_prefix blk (snd c) with Some _ => true | None => false end) cands with
+          | Some (i, l) => match strip_prefix blk l with Some rest => parse_block f cands (i :: used) rest | None => None end
+          | None => None
+          end
+      end
+  end.
+Fixpoint parse_chain (cands : list (N * list tx)) (used : list N) (chain : list (list tx)) : option (list N) :=
+  match chain with
+  | [] => Some used
+  | b :: r => match b with
+              | [] => None
+              | _ => match parse_block (S (length b)) cands used b with Some u => parse_chain cands u r | None => None end
+              end
+  end.
+(* (K, workspace op lists, committed flags (state() = Committed), commit results, block tx lists, verify code, dump) *)
+Definition merge_case := (N * list (list tx) * list bool * list N * list (list tx) * N * list (option bytes))%type.
+Definition check_merge (c : merge_case) : N :=
+  let '(K, wss, comm, res, chain, ver, d) := c in
+  let n := N.of_nat (length wss) in
+  let idx := combine (N_seq n) (combine wss comm) in
+  let cands : list (N * list tx) := flat_map (fun x : N * (list tx * bool) => if snd (snd x) then [(fst x, fst (snd x))] else []) idx in
+  let must := map fst (filter (fun c : N * list tx => negb (is_nil (snd c))) cands) in
+  if negb (N.eqb ver 0) then V_VIOLATION
+  else if negb (forallb (fun rc => negb (N.eqb (fst rc) 0) || snd rc) (combine res comm)) then V_VIOLATION  (* Ok => Committed *)
+  else match parse_chain cands [] chain with
+       | None => V_VIOLATION
+       | Some used =>
+           if forallb (fun i => memN i used) must && N.eqb (N.of_nat (length used)) (N.of_nat (length must))
+              && dump_eqb d (apply_dump K (dump K []) (concat chain))
+           then V_OK else V_VIOLATION
+       end.
+
 (* ------------------------------------------------------------ replicas *)
 (* a block offered to both replicas: (txs, root_good, raw description of the rest) *)
 Definition rblock := (list tx * bool * rawdesc)%type.
@@ -334,3 +386,4 @@ Definition check_seq1 (c : N * seq_case) : N := check_seq (fst c) (snd c).
 Definition check_tamper1 (c : N * tamper_case) : N := check_tamper (fst c) (snd c).
 Definition check_conc1 (c : N * conc_case) : N := check_conc (fst c) (snd c).
 Definition check_replay1 (c : N * replay_case) : N := check_replay (fst c) (snd c).
+Definition check_merge1 (c : N * merge_case) : N := check_merge (snd c).
